@@ -250,13 +250,22 @@ def gen_cases(rng, quick):
     # svgz
     import gzip
     cases.append(Case(gzip.compress(d0, mtime=0), kind='svgz', w='30'))
-    # the known classes (one deliberate probe each; cheap: they fail before any allocation)
+    # regression inputs of the FIXED classes (925640f, 57970e3, 71df1bd, dd6e054): must pass with the documented behaviour
     probe = b'<svg %s width="20" height="10"><rect id="r" x="2" y="2" width="5" height="5" fill="red"/></svg>' % NS.encode()
     far = b'<svg %s width="20" height="10"><rect id="r" x="2000000000" y="2" width="300000000" height="5" fill="red"/></svg>' % NS.encode()
-    cases.append(Case(probe, kind='probe:target-width-overflow', w='1000000000'))
-    cases.append(Case(probe, kind='probe:target-width-overflow', z='134217728'))          # 2^27 * 20 > i32::MAX/4
-    cases.append(Case(far, kind='probe:area-drawing-box-overflow', area_drawing=True))
-    cases.append(Case(far, kind='probe:area-page-offset-overflow', export_id='r', area_page=True))
+    cases.append(Case(probe, kind='fixed:target-width-overflow', w='1000000000', expect=1))
+    cases.append(Case(probe, kind='fixed:target-width-overflow', z='134217728', expect=1))          # 2^27 * 20 > i32::MAX/4
+    cases.append(Case(probe, kind='fixed:target-width-overflow', z='inf', expect=1))
+    cases.append(Case(probe, kind='fixed:target-width-overflow', h='1000000000', export_id='r', expect=1))
+    cases.append(Case(probe, kind='fixed:target-width-overflow', z='134217728', export_id='r', area_page=True, expect=1))
+    cases.append(Case(far, kind='fixed:area-drawing-box-overflow', area_drawing=True, expect=0))
+    cases.append(Case(far, kind='fixed:area-drawing-box-overflow', area_drawing=True, z='0.5', expect=0))
+    # (F32.svg itself needs a 6 GB node canvas with --export-id: outside the exercised memory range; F32b.svg has the same offset overflow with a 1000x5 node)
+    far_small = b'<svg %s width="20" height="10"><rect id="r" x="2147483000" y="2" width="1000" height="5" fill="red"/></svg>' % NS.encode()
+    cases.append(Case(far_small, kind='fixed:area-page-offset-overflow', export_id='r', area_page=True, expect=0))
+    cases.append(Case(far_small, kind='fixed:area-page-offset-overflow', export_id='r', area_page=True, bg=('white', (255, 255, 255, 255)), expect=0))
+    cases.append(Case(probe, kind='fixed:stdout-write-panic', stdout=True, stdout_full=True, expect=1))
+    # the remaining known classes (one deliberate probe each)
     cases.append(Case(b'<svg %s width="1" height="100"><rect width="1" height="100" fill="red"/></svg>' % NS.encode(),
                       kind='probe:wh-box-exceeded', w='1', h='1'))
     cases.append(Case(b'<svg %s width="100" height="101"><rect width="100" height="101" fill="red"/></svg>' % NS.encode(),
@@ -264,7 +273,6 @@ def gen_cases(rng, quick):
     ap = b'<svg %s width="40" height="40"><rect width="5" height="5" fill="blue"/><rect id="r" x="20" y="10" width="10" height="10" fill="red"/></svg>' % NS.encode()
     cases.append(Case(ap, kind='probe:area-page-scaled-offset', export_id='r', area_page=True, z='2'))
     cases.append(Case(ap, kind='probe:export-id-fit-scale', export_id='r', w='80'))
-    cases.append(Case(probe, kind='probe:stdout-write-panic', stdout=True, stdout_full=True))
     return cases
 
 
@@ -729,44 +737,7 @@ def _run(ctx, rng, quick, binp, rb, ub, wd, proof_ok, res, broken):
 
 
 def crash_class(c, lib):
-    """Decidable class predicates for the crashes that are known findings (mirrors Model/Cli.v k_*)."""
-    if c.stdout_full:
-        return 'stdout-write-panic'
-    if 'size' not in lib:
-        return None
-    dw, dh = int_size(lib['size'][0], lib['size'][1])
-    w, h, z = c.num(c.w), c.num(c.h), c.zq()
-
-    def fit(sw, sh):
-        if w is not None and h is not None:
-            rw = ceil_fr(Fraction(h * sw, sh))
-            return (w, ceil_fr(Fraction(w * sh, sw))) if rw >= w else (rw, h)
-        if w is not None:
-            return (w, ceil_fr(Fraction(w * sh, sw)))
-        if h is not None:
-            return (ceil_fr(Fraction(h * sw, sh)), h)
-        if z is not None:
-            return (round_haz(sw * z), round_haz(sh * z))
-        return (sw, sh)
-    tw, th = fit(dw, dh)
-    sx, sy = Fraction(tw, dw), Fraction(th, dh)
-    if c.export_id is not None:
-        nd = lib.get('node')
-        if isinstance(nd, list):
-            nw, nh = int_size(nd[2], nd[3])
-            fw, fh = fit(nw, nh)
-            if fw > MAX_PIXMAP_W or (c.area_page and tw > MAX_PIXMAP_W):
-                return 'target-width-overflow'
-            if c.area_page and (int(nd[0]) + fw > I32_MAX or int(nd[1]) + fh > I32_MAX):
-                return 'area-page-offset-overflow'
-        return None
-    if tw > MAX_PIXMAP_W:
-        return 'target-width-overflow'
-    if c.area_drawing:
-        x, y, cw, ch = [Fraction(v) for v in lib['content']]
-        if (int(x * sx) + ceil_fr(cw * sx) > I32_MAX or int(y * sy) + ceil_fr(ch * sy) > I32_MAX
-                or x * sx < -I32_MAX - 1 or y * sy < -I32_MAX - 1):
-            return 'area-drawing-box-overflow'
+    """No crash of the tool is a known finding any more (the four panic classes are fixed in /repo): every crash is reported."""
     return None
 
 
